@@ -245,6 +245,13 @@ pub fn oracle(case: &McCase, res: &McResult) -> Outcome {
         if admissible {
             labels.insert("all_admissible");
             for (ci, c) in res.conns.iter().enumerate() {
+                // (how many connects one socket may have pending towards one address is an internal constant: a call
+                // refused while another call to the same address was pending is not held against the implementation)
+                if let CallOut::Err(t, e) = &c.out {
+                    let me = &case.conns[ci];
+                    let other_pending = res.conns.iter().enumerate().any(|(cj, o)| cj != ci && case.conns[cj].from == me.from && case.conns[cj].to == me.to && o.call_at_us <= *t && match &o.out { CallOut::Ok(x) | CallOut::Err(x, _) | CallOut::Abandoned(x) => *x >= c.call_at_us, _ => true });
+                    if e.contains("too many") && other_pending { labels.insert("refused_while_another_pending"); continue; }
+                }
                 if clash_pairs.contains(&(case.conns[ci].from.min(case.conns[ci].to), case.conns[ci].from.max(case.conns[ci].to))) { continue; }
                 if !matches!(c.out, CallOut::Ok(_)) || !by_token.contains_key(&ci) {
                     viol!("admissible-connect-failed", "connect #{ci} ended as {:?} (token delivered: {}) although no socket ever has more connections than its limit and the network loses nothing", c.out, by_token.contains_key(&ci));
